@@ -662,18 +662,41 @@ func genForge(r *rand.Rand, id string, size int, total int) []string {
 		}
 		g.obsAll(members)
 	}
-	// honest re-announcement of everything, twice
+	// honest re-announcement of everything, twice; in half of the scenarios over the direct channel
+	// (head exchange on join: q sends what it holds to p), which the instance must still be serving
+	overDC := g.pick(2) == 0
+	if overDC && len(honestWriters) > 0 {
+		// a last honest write that the others can only learn about over the direct channel
+		write(honestWriters[g.pick(len(honestWriters))])
+		if watched {
+			for _, m := range members {
+				g.add("evflush %d", m)
+			}
+		}
+	}
 	for round := 0; round < 2; round++ {
 		for _, p := range members {
 			for _, q := range members {
 				if p != q {
-					g.add("sync %d %d", p, q)
+					if overDC {
+						g.add("exchange %d %d", q, p)
+					} else {
+						g.add("sync %d %d", p, q)
+					}
 				}
 			}
 		}
 	}
 	g.obsAll(members)
 	g.add("final10")
+	// the reload route: what was refused on arrival must not come back through Load after a restart
+	// (the cached heads lead to everything a colluding writer's entry names)
+	if !watched && g.pick(2) == 0 {
+		for _, m := range members {
+			g.add("restart %d", m)
+		}
+		g.obsAll(members)
+	}
 	return g.lines
 }
 
@@ -838,7 +861,16 @@ func genOneOnOne(r *rand.Rand, id string, size int, total int) []string {
 		}
 		return strings.Join(xs, ",")
 	}
-	g.add("tone %d %d %s %s", a, b, pay(), pay())
+	if g.pick(2) == 0 {
+		// two stores of one instance see the peer join in the same poll and both connect to it
+		pb := pay()
+		for pb == "-" {
+			pb = pay()
+		}
+		g.add("tone %d %d %s %s conc", a, b, pay(), pb)
+	} else {
+		g.add("tone %d %d %s %s", a, b, pay(), pay())
+	}
 	return g.lines
 }
 
@@ -1106,6 +1138,23 @@ func genAddress(r *rand.Rand, id string, size int, total int) []string {
 		case 1:
 			g.add("createdb %d %s %s %s%s", p, name, kind, acl, dir)
 			g.add("parselast")
+		}
+		if g.pick(3) == 0 {
+			// an address given by the user: the last database's, spelled in ways that clean to it or
+			// that climb out of another database's root (the victim's) into it, and the other way round
+			tmpl := []string{
+				"/orbitdb/@rlast@/@nlast@", "@rlast@/@nlast@", "/orbitdb/@rlast@/./@nlast@", "/orbitdb/@rlast@//@nlast@/",
+				"/orbitdb/@r1@/../@rlast@/@nlast@", "/orbitdb/@rlast@/../@r1@/victim", "/orbitdb/@rlast@/x/../../@r1@/victim",
+				"/orbitdb/@r1@/victim/../../@rlast@/@nlast@", "/orbitdb/@rlast@/@nlast@/../x", "/orbitdb/../orbitdb/@rlast@/@nlast@",
+			}
+			ti := g.pick(10)
+			lo := ""
+			// (local-only only with the canonical spelling: the code finds the local copy by the cleaned
+			// cache key, the model by the parsed address — U10 in Model/OpenCreate.lean)
+			if ti == 0 && g.pick(2) == 0 {
+				lo = " localonly"
+			}
+			g.add("openaddr %d %s%s", []int{p, q}[g.pick(2)], hx([]byte(tmpl[ti])), lo)
 		}
 		g.add("closeextra")
 	}
